@@ -245,6 +245,13 @@ def run(tier, verif, env):
             violations.append(("features %s: exploration of %s differs from the reference: %s" % (feats, pid, (desc[0] if desc else "")[:160]),
                                (desc[0] if desc else "violation")[:600],
                                {"config": feats, "profile": "da-off", "kind": "mc", "mc_property": pid, "mc_replay": rp[0] if rp else None}))
+        elif rc < 0 or rc in (101, 132, 133, 134, 135, 136, 139):
+            # the explorer itself was killed (signal / abort / escaped panic) in this feature build: with the default
+            # build the same exploration completes, so the feature set changed the behaviour - that is C14's subject
+            last = (err.strip().splitlines() or [""])[-1][:300]
+            violations.append(("features %s: exploration of %s crashed" % (feats, pid),
+                               "mc %s built with features %s died with exit %d (%s)" % (pid, feats, rc, last),
+                               {"config": feats, "profile": "da-off", "kind": "mc-crash", "mc_property": pid}))
         elif rc != 0:
             sys.stderr.write(err[-2000:])
             log("mc %s with features %s failed with exit %d (machinery error, not a verdict)" % (pid, feats, rc))
@@ -309,9 +316,21 @@ def replay(path, verif, env):
     tier = doc.get("tier", "quick")
     env = dict(env, MC_TIER=tier)
     n, pn = c["config"], c["profile"]
-    if c["kind"] != "mc" and not build_all(verif, env, tier):
+    if c["kind"] not in ("mc", "mc-crash") and not build_all(verif, env, tier):
         return 2
     p = dict(PROFILES)[pn]
+    if c["kind"] == "mc-crash":
+        feats = c["config"]
+        f, rc0, out0 = build_mc_feature(verif, env, feats)
+        if rc0 != 0:
+            sys.stderr.write(out0)
+            return 2
+        rc, out, err, _ = run_mc_feature(verif, env, feats, c["mc_property"])
+        print("replay: mc %s built with features %s exits %d" % (c["mc_property"], feats, rc))
+        if rc not in (0, 2, 3, 5, 6, 7, 8):
+            print("VIOLATION property=C14 replay=%s" % path)
+            return 1
+        return 0 if rc == 0 else 2
     if c["kind"] == "mc":
         feats = c["config"]
         f, rc0, out0 = build_mc_feature(verif, env, feats)
